@@ -1,7 +1,7 @@
 #!/bin/bash
 # usage: tools/mkmut.sh <out.diff> <file> <perl-substitution> [<file> <subst> ...] — build a patch by editing /repo in place, then revert.
 set -u
-out="$1"; shift
+out="$(realpath -m "$1")"; shift
 cd /repo || exit 2
 if [ -n "$(git status --porcelain)" ]; then echo "repo not clean"; exit 2; fi
 while [ $# -ge 2 ]; do
